@@ -167,12 +167,27 @@ type fileSet struct {
 	Dir string
 }
 
+var (
+	fsMu   sync.Mutex
+	fsFree []*fileSet
+	fsSeq  int
+)
+
+// newFileSet hands out a private directory. Directories are recycled (one per
+// concurrently running case) to keep file-system metadata traffic low; files
+// are overwritten by the next case. parts only name the first user.
 func newFileSet(parts ...interface{}) *fileSet {
-	name := make([]string, len(parts))
-	for i, p := range parts {
-		name[i] = fmt.Sprint(p)
+	fsMu.Lock()
+	if n := len(fsFree); n > 0 {
+		f := fsFree[n-1]
+		fsFree = fsFree[:n-1]
+		fsMu.Unlock()
+		return f
 	}
-	d := filepath.Join(scratchBase(), strings.Join(name, "-"))
+	fsSeq++
+	seq := fsSeq
+	fsMu.Unlock()
+	d := filepath.Join(scratchBase(), fmt.Sprintf("fs%03d-%v", seq, parts[0]))
 	if err := os.MkdirAll(d, 0o755); err != nil {
 		panic(err)
 	}
@@ -188,7 +203,13 @@ func (f *fileSet) write(name, content string) string {
 }
 
 func (f *fileSet) path(name string) string { return filepath.Join(f.Dir, name) }
-func (f *fileSet) remove()                 { os.RemoveAll(f.Dir) }
+
+// remove gives the directory back for reuse (bin/check deletes the scratch root).
+func (f *fileSet) remove() {
+	fsMu.Lock()
+	fsFree = append(fsFree, f)
+	fsMu.Unlock()
+}
 
 const (
 	fHost    = "host_rule.data"
